@@ -43,7 +43,7 @@ func (c06) Components() map[string]string {
 }
 func (c06) Budget(tier string) int {
 	if tier == "thorough" {
-		return 120000
+		return 40000
 	}
 	return 900
 }
